@@ -125,6 +125,8 @@ func (o *Options) populateGlobals(c *cli.Context) error {
 	if c.IsSet("date-format") || o.GlobalConfig.DateFormat == "" {
 		o.GlobalConfig.DateFormat = c.String("date-format")
 	}
+	// the format is documented as used for parsing and printing dates
+	o.ReporterConfig.DateFormat = o.GlobalConfig.DateFormat
 	if c.IsSet("today") {
 		now, err := time.Parse(o.GlobalConfig.DateFormat, c.String("today"))
 		if err != nil {
